@@ -42,6 +42,9 @@ let ostr_of (s : D.string) : string =
 let split_on c s = if s = "" then [] else String.split_on_char c s
 let words s = List.filter (fun x -> x <> "") (String.split_on_char ' ' s)
 
+(* argv[2] = nocache: the library was built with CELLO_CACHE switched off (no cache words, no wiring) *)
+let nocache = Array.length Sys.argv > 2 && Sys.argv.(2) = "nocache"
+let cache_num = if nocache then D.O else D.d_cache_num
 let objects = List.map ostr_of D.d_objects
 let wiring_names = List.map (fun (i, n) -> (int_of_nat i, ostr_of n)) D.d_wiring
 let types = List.map (fun (t, l) -> (ostr_of t, l)) D.d_types
@@ -58,21 +61,22 @@ let parse_case line : cse =
     let names = Array.map (fun (_, n) -> cstr_of n) arr in
     let cn c = let i = int_of_nat c in if i < Array.length names then names.(i) else D.EmptyString in
     let find_at name = let r = ref (-1) in Array.iteri (fun i (k, n) -> if !r < 0 && k = '@' && n = name then r := i) arr; !r in
-    let wiring = List.filter_map (fun (slot, n) -> let i = find_at n in
-                                   if i < 0 then None else Some (nat_of_int slot, nat_of_int i)) wiring_names in
+    let wiring = if nocache then [] else
+        List.filter_map (fun (slot, n) -> let i = find_at n in
+                          if i < 0 then None else Some (nat_of_int slot, nat_of_int i)) wiring_names in
     let dl = List.map (fun s -> match String.split_on_char ':' s with
         | [ c; m ] -> (int_of_string c, int_of_string m) | _ -> failwith "bad decl") (split_on ',' (if decl = "-" then "" else decl)) in
     let masks = Array.of_list (List.map snd dl) in
     let imem i m = let i = int_of_nat i and m = int_of_nat m in
       i < Array.length masks && m < 3 && (masks.(i) lsr m) land 1 = 1 in
-    let t0 = D.cold_type D.d_cache_num (List.mapi (fun pos (c, _) -> (names.(c), nat_of_int pos)) dl) in
+    let t0 = D.cold_type cache_num (List.mapi (fun pos (c, _) -> (names.(c), nat_of_int pos)) dl) in
     { cn; wiring; t0; imem; cast_id = find_at "Cast";
       threads = List.map words (String.split_on_char '/' ops); seed = int_of_string seed }
   | [ "B"; tname; _; ops; seed ] ->
     let insts = List.assoc tname types in
     let rec idx n = function [] -> -1 | x :: r -> if x = "Cast" then n else idx (n + 1) r in
-    { cn = D.cn_of D.d_objects; wiring = D.wiring_ids D.d_objects D.d_wiring;
-      t0 = D.cold_type D.d_cache_num (D.builtin_decl insts); imem = D.builtin_imem insts;
+    { cn = D.cn_of D.d_objects; wiring = (if nocache then [] else D.wiring_ids D.d_objects D.d_wiring);
+      t0 = D.cold_type cache_num (D.builtin_decl insts); imem = D.builtin_imem insts;
       cast_id = idx 0 objects; threads = List.map words (String.split_on_char '/' ops); seed = int_of_string seed }
   | _ -> failwith "bad case"
 
